@@ -67,11 +67,16 @@ def _special_models():
 
 
 def env_battery(size):
-    models = list(sp.structures_upto(3)) + _special_models()
+    F, R, M = sh.F, sh.R, sh.M
+    # the first and the last model use the pool names with different group kinds / cardinalities, so
+    # that whatever a process remembers by name differs with the order of serialisation
+    first = M(F('Fa', [R(1, 1, [F('Bb', [R(0, 1, [F('Dc'), F('Ad')])]), F('Ee')])]), [('c1', ('REQUIRES', 'Bb', 'Ee'))])
+    last = M(F('Fa', [R(1, 2, [F('Bb', [R(2, 2, [F('Dc'), F('Ad')])]), F('Ee')])]), [('c1', ('EXCLUDES', 'Bb', 'Ee'))])
+    models = [first] + list(sp.structures_upto(3)) + _special_models()
     models += [cm.on_carrier([t]) for t in _ctc_set()[1:8]]
     if size == 'large':
         models += [m for m in sp.structures(4)][::3]
-    return models
+    return models + [last]
 
 
 def readable(writer, model):
@@ -103,6 +108,10 @@ def cases(tier, seed):
     for t in families.deep_trees()[::3]:
         for w in WRITERS:
             yield ('W', w, cm.on_carrier([t]))
+    from . import rt
+    for m in list(rt.collision_models()) + [x for x in sp.structures_upto(3, star=True) if any(b == -1 for (_p, _a, b, _k) in sh.relations(x))]:
+        for w in WRITERS:
+            yield ('W', w, m)
     seeds = SEEDS[tier]
     locs = QUICK_LOCALES if tier == 'quick' else tuple(LOCALES)
     rot = seed % len(seeds)
@@ -201,13 +210,13 @@ def _check_writer(wname, model):
 _REF = {}
 
 
-def _run_env(writer, size, env_extra):
+def _run_env(writer, size, env_extra, order='forward'):
     env = dict(os.environ)
     for k in ('LC_ALL', 'LANG', 'LC_CTYPE', 'PYTHONUTF8', 'PYTHONCOERCECLOCALE', 'PYTHONIOENCODING'):
         env.pop(k, None)
     env.update(env_extra)
     env['PYTHONPATH'] = engine.VERIF + os.pathsep + env.get('PYTHONPATH', '')
-    proc = subprocess.run([sys.executable, '-m', 'vmc.envworker', writer, size], env=env, cwd=engine.VERIF,
+    proc = subprocess.run([sys.executable, '-m', 'vmc.envworker', writer, size, order], env=env, cwd=engine.VERIF,
                           stdout=subprocess.PIPE, stderr=subprocess.PIPE, timeout=600)
     engine.tick()
     if proc.returncode != 0:
@@ -234,7 +243,9 @@ def _check_env_uncached(writer, seed, loc, size):
     ref = _REF[key]
     env = dict(LOCALES[loc])
     env['PYTHONHASHSEED'] = str(seed)
-    got = _run_env(writer, size, env)
+    # every other configuration serialises the battery in another order: output that depends on what
+    # the process serialised before (a cache keyed by names) shows as a digest mismatch
+    got = _run_env(writer, size, env, ('forward', 'reverse', 'interleaved')[seed % 3])
     engine.validated()
     out = []
     battery = env_battery(size)
